@@ -233,6 +233,15 @@ def run(ctx):
                  canonical="list_nd")
         evaluate("dtw_barycenter.dba_loop(use_c)", lambda s, c0: dtw_barycenter.dba_loop(s, c0, max_it=3, use_c=True), dargs,
                  True, canonical="list_nd")
+        # real-valued series (sums that are not exact in binary): the Python average must not depend on whether the
+        # values arrive as Python floats (lists, array.array) or as numpy.float64 (arrays)
+        rseries = [[rng.uniform(-9, 9) for _ in s_] for s_ in series]
+        rcols = reps_collection(rseries, rng)
+        rc0 = [rng.uniform(-3, 3) for _ in cvals]
+        rargs = {k: (v, np.array(rc0)) for k, v in rcols.items() if k in ("list_nd", "list_strided", "list_array", "matrix")}
+        rargs["list_array|c_array"] = (rcols["list_array"], array.array("d", rc0))
+        evaluate("dtw_barycenter.dba(real-valued)", lambda s, c0: dtw_barycenter.dba(s, c0), rargs, False,
+                 canonical="list_nd")
         # the loop without a convergence test, with and without an initial average (then the first series is the
         # start value and must not be written to either)
         for eng_c in (False, True):
